@@ -230,6 +230,7 @@ PostF(s, i) ==
                  [] d.cap = "json" -> Val("j", me.pend.k)
                  [] d.cap = "hdr"  -> Val("h", me.pend.k)
                  [] d.cap = "xpath" -> Val("x", me.pend.k)
+                 [] d.cap = "jsonnum" -> Val("n", me.pend.k)     \* the JSON number 1000000 + k
         assertFails == d.assert /\ me.pend.status # 200
         last == me.pos >= Len(me.steps)
     IN IF assertFails THEN FailF(s, i)
